@@ -70,7 +70,11 @@ def main(argv=None) -> int:
             selfcheck = True
             i += 1
         elif a == '--all':
-            props = list(PROPS)
+            try:
+                man = json.load(open(os.path.join(os.path.dirname(os.path.dirname(os.path.abspath(__file__))), 'MANIFEST.json')))
+                props = [c['property_id'] for c in man['checks']]
+            except Exception:
+                props = list(PROPS)
             i += 1
         else:
             props.append(a)
